@@ -113,6 +113,9 @@ var whitelist = []fnSpec{
 	{"ttheader", "", "WriteByte"}, {"ttheader", "", "WriteUint16"}, {"ttheader", "", "WriteUint32"},
 	{"ttheader", "", "WriteString"}, {"ttheader", "", "WriteString2BLen"},
 	{"ttheader", "", "writeKVInfo"}, {"ttheader", "", "Encode"},
+	// fastcodec.go over an abstract FastCodec (BLength / FastWriteNocopy / FastRead as parameters;
+	// FastWriteNocopy stores into its buffer: mutatingMethods) and dirtmake.Bytes as a content oracle
+	{"thrift", "", "FastMarshal"}, {"thrift", "", "FastUnmarshal"}, {"thrift", "", "MarshalFastMsg"},
 }
 
 // Coq names that differ from g_<pkg>_<Func> (methods of several types with the same name)
@@ -201,10 +204,11 @@ type fnInfo struct {
 	errKeys               map[string]bool // error values (ecode keys) the function or its callees can produce
 	errCmps               []errCmp        // comparisons err == <error variable> to be validated at the end
 	// phase 3 (ext3.go)
-	hasRange bool                    // contains a range statement over a map
-	nilable  map[*types.Var]bool     // abstract objects (interface-typed parameters) that are compared with nil: they get a nil flag
-	regionOf map[*types.Var]*absRoot // local []byte variables that are windows into an abstract object's memory
-	oracles  []oracle                // the enumeration orders of its map range statements (and of its callees'): trailing parameters
+	hasRange  bool                    // contains a range statement over a map
+	nilable   map[*types.Var]bool     // abstract objects (interface-typed parameters) that are compared with nil: they get a nil flag
+	dirtOwned map[*types.Var]bool     // local buffers x := dirtmake.Bytes(n, n)
+	regionOf  map[*types.Var]*absRoot // local []byte variables that are windows into an abstract object's memory
+	oracles   []oracle                // the enumeration orders of its map range statements (and of its callees'): trailing parameters
 }
 
 type errCmp struct {
@@ -245,6 +249,7 @@ type fctx struct {
 	nloop      int
 	loopCache  map[*ast.BlockStmt]*loopFrame // a for statement reached along several paths is one Fixpoint
 	callOrds   map[*ast.CallExpr][]string    // the order oracles handed to a callee, per call site
+	dirtCall   *ast.CallExpr                 // the one allocation of uninitialised memory of the function
 }
 
 func (c *fctx) failf(n ast.Node, format string, a ...interface{}) {
@@ -2161,7 +2166,15 @@ func header() string {
        field (stores into its map fields are refused);
      * v, ok := m[k] is GoSem.gmap_find;
      * for i, x := range s over a []byte value that the body does not store into: a Fixpoint by
-       structural recursion on the contents, i the index (strings — runes — are refused). *)
+       structural recursion on the contents, i the index (strings — runes — are refused);
+     * dirtmake.Bytes(n, c) (uninitialised memory) is the function parameter x_dirtmake_Bytes, a
+       content oracle (externalFns; at most one allocation per function, none inside loops);
+       x := dirtmake.Bytes(n, n) is a local buffer like make([]byte, n) that may also be handed,
+       whole or as x[a:], to callees and methods that store into it, and be returned;
+     * a method of an abstract object listed in mutatingMethods (FastCodec.FastWriteNocopy) stores
+       into its []byte argument: its model returns the final contents of that argument after the
+       state; an interface-typed parameter of a method of an abstract object must be handed the
+       literal nil and is not a parameter of the model. *)
 From GV Require Import Lib.Bytes Lib.Res Lib.GoSem.
 Open Scope Z_scope.
 `
